@@ -1264,10 +1264,16 @@ impl VariableIdentifier {
 
     /// Create a new direct variable identifier.
     pub fn new_direct(name: Option<Id>, location: AddressAssignment) -> Self {
+        // The position of the variable is the position of its name. Without
+        // a name there is (as yet) no position to refer to.
+        let span = match &name {
+            Some(name) => name.span.clone(),
+            None => SourceSpan::default(),
+        };
         VariableIdentifier::Direct(DirectVariableIdentifier {
             name,
             address_assignment: location,
-            span: SourceSpan::default(),
+            span,
         })
     }
 
